@@ -161,7 +161,15 @@ def run_case(case):
                     v = rnd(r)
                     vals.append(None if isinstance(v, list) else v)
             isdc = r.random() < 0.9
-            if isdc:
+            if isdc and vals and r.random() < 0.2:
+                # the codes are what `Cat.<name>` evaluates to: declared with other defaults, then re-assigned on the class
+                # (or overridden in a subclass) - the declared defaults are not the codes
+                decl = [r.choice([i, i, 0, i + 1]) for i in range(len(vals))]
+                kls = make_dataclass("Cat", [(f"c{i}", object, field(default=v)) for i, v in enumerate(decl)])
+                for i, v in enumerate(vals):
+                    setattr(kls, f"c{i}", v)
+                out["hist"]["disc:codes_reassigned"] = out["hist"].get("disc:codes_reassigned", 0) + 1
+            elif isdc:
                 kls = make_dataclass("Cat", [(f"c{i}", object, field(default=v)) for i, v in enumerate(vals)])
             else:
                 kls = type("Plain", (), {f"c{i}": v for i, v in enumerate(vals)})
